@@ -79,9 +79,11 @@ func SpellV(prog []item, v int) string {
 			}
 		case "open":
 			var ps []string
-			for _, p := range it.Ps {
+			for q, p := range it.Ps {
 				if p.D != "" {
 					ps = append(ps, p.N+"="+p.D)
+				} else if v >= 0 && q == len(it.Ps)-1 && (v+q)%3 == 0 {
+					ps = append(ps, "..."+p.N) // the last parameter as a rest parameter: same scoping
 				} else {
 					ps = append(ps, p.N)
 				}
@@ -114,11 +116,19 @@ func SpellV(prog []item, v int) string {
 			case "catch":
 				b.WriteString("try{}catch(" + it.N + "){")
 				closers = append(closers, "}")
-			case "cls":
-				b.WriteString("class " + it.N + "{m(){")
+			case "cls": // the class body's function boundary: a method, or (every other time) a static initialisation block
+				if v >= 0 && (v+nblk)%2 == 1 {
+					b.WriteString("class " + it.N + "{static{")
+				} else {
+					b.WriteString("class " + it.N + "{m(){")
+				}
 				closers = append(closers, "}}")
 			case "cx":
-				b.WriteString("(class " + it.N + "{m(){")
+				if v >= 0 && (v+nblk)%2 == 1 {
+					b.WriteString("(class " + it.N + "{static{")
+				} else {
+					b.WriteString("(class " + it.N + "{m(){")
+				}
 				closers = append(closers, "}});")
 			}
 		case "close":
